@@ -35,7 +35,7 @@ EXPLANATION = (
     'TestRunTAP.parse/complete, with atoms versioned by reaching definitions and outcomes compared symbolically with the A.17 '
     'reference rows: R1 constant propagation of `state` over its three folded constants on the CFG (the assertion state == _MAIN '
     'holds, YAML is entered only from AFTER_TEST) plus the prefix table (YAML only for version >= 13 on a YAML-start line, end / '
-    'body / unterminated rows) and "every test-line row ends in AFTER_TEST, nothing else writes it"; R2 event constructors and '
+    'body / unterminated rows; a blank line - empty after removing trailing white space - yields no event in any state: inside a YAML block it is part of the block whether or not it carries the indentation; worlds "blank and YAML marker" pruned by a regex-language fact) and "every test-line row ends in AFTER_TEST, nothing else writes it"; R2 event constructors and '
     'operand roles per row for test / plan / Bail out / version / unknown / end-of-stream and the seven parse_test rows, the six '
     'line forms denoted by the regex constants (group roles from the regex structure, specification samples, pairwise disjoint; a directive group that also captures a word that is neither SKIP... nor TODO - e.g. TODOS, TODO-later - is reported; the number groups of the test / plan / version patterns match ASCII digits only - no \\d without the ASCII flag), '
     'parse/parse_async pass every line then exactly one EOF (second call, chained None marker, or a private pass-through generator that yields the marker); R3 per-row effect shapes num_tests+1 once, last_test := last_test+1 '
@@ -979,7 +979,9 @@ def _check_pre(m: Model) -> None:
             if v.get('yaml_end'):
                 out.update({'state': '_MAIN', 'leaves by': 'return'})
                 return out
-            if v.get('indented'):
+            if v.get('indented') or v.get('blank'):
+                # the body of the block: an indented line, or a blank one (YAML emitters write the empty lines of a literal scalar
+                # without indentation); "YAML blocks after a test are ignored" - no event, the block stays open
                 out['leaves by'] = 'return'
                 return out
             out.update({'state': '_MAIN', 'events': ['Error']})
@@ -992,8 +994,26 @@ def _check_pre(m: Model) -> None:
         rec = ind is not None and f.role_ref(ind, 'yaml_start', 'indent') and ln is not None and ln == _final(r, 'lineno')
         return {'state': None if fs is None else (f.state_of(fs) or fs), 'YAML bookkeeping': bool(rec), 'events': _names(_events(f, r)),
                 'leaves by': r.outcome[0]}
+    # regex-language fact: a whitespace-only line is no YAML marker line (the marker patterns are applied with `match`, and a prefix of a
+    # whitespace-only line is whitespace-only) - the worlds "blank and marker" do not exist, so the order in which a body asks is immaterial
+    not_blank = {kind for n_, kind in FORM_OF.items() if kind in ('yaml_start', 'yaml_end')
+                 and rx.intersects(f.regexes[n_].pattern, r'\s*', f.regexes[n_].flags, 0) is None}
     n, bad, holes = compare(tab, _pre_sem(m), ref, got, _pre_extra(f),
-                            consistent=lambda v: _one_state(v) is not None and v.get('constants equal') in (None, True) and v.get('constants differ') in (None, False))
+                            consistent=lambda v: _one_state(v) is not None and v.get('constants equal') in (None, True) and v.get('constants differ') in (None, False)
+                            and not (v.get('blank') and any(v.get(k) for k in not_blank)))
+    # one clause, one finding: a blank line produces no event in any state (MAIN: skipped; AFTER_TEST: skipped after leaving the state;
+    # YAML: part of the block).  Reported once, not per component of the row.
+    in_block = [b for b in bad if _one_state(b[3]) == '_YAML' and b[3].get('blank') and not b[3].get('yaml_end') and not b[3].get('indented')]
+    if in_block:
+        bad = [b for b in bad if not any(b is x for x in in_block)]
+        row, g, want, _view = in_block[0]
+        m.diff('C18.R2', f'{tab.name}: blank line inside a YAML block',
+               f'{tab.name}: in the YAML state a blank line that does not start with the recorded indentation (an empty line: YAML emitters write the blank '
+               f'lines of a literal scalar without indentation) gives events {g["events"]!r}, next state {g["state"]!r}; the reference row has '
+               f'{want["events"]!r} / {want["state"]!r} (the block stays open, nothing is reported): `TAP version 13` / `ok 1` / `  ---` / `  msg: |` / `    a` / `` / `    b` / `  ...` '
+               f'is a well-formed TAP 13 stream, and "YAML blocks after a test are ignored"', row.items[-1].raw if row.items else None)
+    else:
+        m.ok('C18.R2', f'{tab.name}: a blank line inside a YAML block is part of the block (no event, the state is kept)')
     _split(m, tab, bad, {'state': 'C18.R1', 'YAML bookkeeping': 'C18.R1', 'events': 'C18.R2', 'leaves by': 'C18.R2'}, n,
            {'C18.R1': 'next state and YAML bookkeeping', 'C18.R2': 'events and blank/diagnostic handling'})
     for v in holes:
